@@ -24,8 +24,9 @@ import (
 func init() { runners["C14"] = runC14 }
 
 type gCmd struct {
-	Kind string `json:"kind"` // begin | end | fail | gate | spawn
+	Kind string `json:"kind"` // begin | end | fail | gate | spawn | fork (C16 only: two concurrent nested tasks)
 	Sub  *gTask `json:"sub,omitempty"`
+	Sub2 *gTask `json:"sub2,omitempty"`
 }
 
 type gTask struct {
@@ -59,6 +60,7 @@ func (t *nameTable) num(full string) int {
 // ---------- generation
 
 type c14gen struct {
+	fork   bool // C16 try bodies: allow one fork command
 	uid    int
 	rng    *RNG
 	budget int
@@ -76,6 +78,19 @@ func (g *c14gen) body(owner *gTask, depth int, mayFail bool) {
 		switch {
 		case i == failAt:
 			owner.Body = append(owner.Body, &gCmd{Kind: "fail"})
+		case g.fork && depth == 1 && g.rng.Chance(45):
+			// one command, two concurrent nested tasks: "a" enters a gate and then fails, "b" is held in a gate
+			g.fork = false
+			mk := func(local string, kinds ...string) *gTask {
+				g.uid++
+				sub := &gTask{Local: local, Full: owner.Full + ":" + local, Ctx: owner.Ctx, UID: fmt.Sprintf("u%d", g.uid)}
+				sub.Num = g.names.num(sub.Full)
+				for _, k := range kinds {
+					sub.Body = append(sub.Body, &gCmd{Kind: k})
+				}
+				return sub
+			}
+			owner.Body = append(owner.Body, &gCmd{Kind: "fork", Sub: mk("fa", "gate", "fail"), Sub2: mk("fb", "begin", "gate", "end")})
 		case depth < 2 && g.budget > 0 && g.rng.Chance(22):
 			g.budget--
 			local := fmt.Sprintf("c%d", len(sibs))
@@ -158,7 +173,10 @@ func (t *gTask) script(epoch string) string {
 	var sb strings.Builder
 	for i, c := range t.Body {
 		id := cmdID(epoch, t.UID, i)
-		if c.Kind == "spawn" {
+		if c.Kind == "fork" {
+			fmt.Fprintf(&sb, "fork %s --name=%s --name2=%s %s %s\n", id, c.Sub.Local, c.Sub2.Local,
+				refQuote1("--body="+c.Sub.script(epoch)), refQuote1("--body2="+c.Sub2.script(epoch)))
+		} else if c.Kind == "spawn" {
 			fmt.Fprintf(&sb, "spawn %s --name=%s", id, c.Sub.Local)
 			if len(c.Sub.WLoc) > 0 {
 				fmt.Fprintf(&sb, " --wait=%s", strings.Join(c.Sub.WLoc, ","))
@@ -199,6 +217,9 @@ func (t *gTask) walk(f func(*gTask)) {
 	for _, c := range t.Body {
 		if c.Sub != nil {
 			c.Sub.walk(f)
+		}
+		if c.Sub2 != nil {
+			c.Sub2.walk(f)
 		}
 	}
 }
